@@ -26,6 +26,58 @@ CLAIMED = {
         "design": "DESIGN.md section 3 C17",
     },
 }
+CLAIMED.update({
+    "C03": {
+        "text": "Contract-based deductive proof of every function of the meta-filter (t4.py): _combine_by_ckey (sum per canonical key via ghost recursive "
+                "sums, strictly increasing keys, only proposed targets), _collect_blocked_ops (blocked iff in cooldown), _novelty_clamp "
+                "(elementwise clip, exact count), _l2_scale (uniform scaling, squared norm <= cap^2 via an inductive ghost lemma), _churn_cap "
+                "(top-K by (-|d|, key), kept are inputs, distinct targets preserved), _get_op_kind, _min_optional_int, and the composition "
+                "t4_filter: canonical order, one delta per target, novelty cap, churn cap, no cooldown origin, only proposed targets, rejected "
+                "ops ascending and complete, pipeline value clip(sum)*scale, arguments untouched. All inputs, unbounded lists.",
+        "note": "Floats are mathematical reals (the float duplicate-sum order dependence is therefore invisible here and is documented in DESIGN.md); "
+                "ProposedDelta/op shapes as declared; _canonical_key is opaque to callers (a function of the three target fields; injectivity on "
+                "':'-free attrs is a separate string lemma, not needed for these clauses); the L2 bound is proved for _l2_scale's output and "
+                "carried to the approved list only as 'approved is a sub-permutation of the scaled list' (sum over a sub-multiset not proved).",
+        "design": "DESIGN.md section 3 C03",
+    },
+    "C04": {
+        "text": "Contract-based deductive proof of apply_changes over an abstract store (function-valued parameter that may raise; every call "
+                "recorded in ghost state): batch first with exactly the approved list, no further call if it returned, otherwise each delta once "
+                "in order continuing past failures; version bumped exactly once (int+1 or restart at '1'); invalidation only in on-apply mode, "
+                "in configured order; snapshot exactly on the cadence with the new version; no exception escapes. Plus Engine-F clauses on "
+                "run_turn: t4_filter/apply_changes/gel_tick/t4.jsonl/apply.jsonl are dominated by the kill switch, called once, approved list "
+                "handed over unmodified.",
+        "note": "write_snapshot is an assumed contract here (records the request, does not raise); int(str) parsing is abstract except on digit "
+                "strings; what a concrete store does with the deltas is not decided.",
+        "design": "DESIGN.md section 3 C04",
+    },
+    "C02": {
+        "text": "Engine-F gate-dominance clauses over the real AST: every effectful entry point of a gated feature (T1/T2 run_parallel, GEL observe/"
+                "tick/merge/split/promotion and gel.jsonl, scheduler events and boundary checks, reflection compute) is reachable only with its "
+                "gate open (z3 on the boolean abstraction of the guards on the path); gate variables are bound once to the documented "
+                "expression; slice budgets are removed from ctx when the scheduler is off.",
+        "note": "Decides inertness only as 'gated code is unreachable with the gate closed'. The relational claim (equal logs/state with and "
+                "without the subtree) and value flow of gated config into ungated code are not decided. Dynamic indirections taken at face value.",
+        "design": "DESIGN.md section 3 C02",
+    },
+    "C19": {
+        "text": "Engine-F clauses: reflection compute is dominated by the triple gate (not dry-run, allow_reflection, plan flag), called once, "
+                "inside a catch-all handler; on error and on wall-budget overrun the result carries no memory entries; the writer runs only "
+                "with a non-empty result, telemetry only with a result; compute, write and telemetry cannot escape run_turn.",
+        "note": "Per-function claims of reflect()/write_reflection_entries (caps, token limit, deterministic ids) are not yet under contract in "
+                "this check.",
+        "design": "DESIGN.md section 3 C19",
+    },
+    "C20": {
+        "text": "Engine-F no-escape clauses for every declared fail-soft site: boot snapshot load, GEL merge/split/promotion (and their candidate "
+                "generators), reflection compute/write/telemetry, LLM adapter construction, hybrid rerank / fusion / MMR in apply_quality, "
+                "sidecar write; store apply errors and cache invalidation errors are covered by the C04 contract of apply_changes "
+                "(raises none with a raising store).",
+        "note": "Decides 'an exception at the site cannot leave the enclosing function'. Equality of the emitted records with a fault-free run "
+                "is not decided. Handlers are required to contain no raise statement; calls inside handlers are not analysed further.",
+        "design": "DESIGN.md section 3 C20",
+    },
+})
 PENDING_REASON = "check not built yet (construction in progress, see DESIGN.md section 3)"
 NA = {}
 
